@@ -101,6 +101,16 @@ func vfC11Gen(rt *rapid.T) *vfC11Case {
 			cl.Queued = c.Timeout / 2
 		}
 		cl.Healthy = healthy[cl.Name]
+		if rapid.IntRange(0, 2).Draw(rt, "spelling") == 0 {
+			// the same question in another client's own 0x20 spelling: the lookup is shared, the reply is not
+			b := []byte(cl.Name)
+			for j := range b {
+				if b[j] >= 'a' && b[j] <= 'z' && (j+i)%2 == 0 {
+					b[j] -= 32
+				}
+			}
+			cl.Name = string(b)
+		}
 		c.Clients = append(c.Clients, cl)
 	}
 	return c
@@ -274,6 +284,9 @@ func vfC11Run(t *testing.T, dir string, c *vfC11Case) (violation string, trace [
 			}
 			if m.Id != uint16(1000+d.I) || len(m.Question) != 1 || !strings.EqualFold(m.Question[0].Name, cl.Name) {
 				fail("client %d: reply carries id %d question %v", d.I, m.Id, m.Question)
+			}
+			if len(m.Question) == 1 && m.Question[0].Name != cl.Name && strings.EqualFold(m.Question[0].Name, cl.Name) {
+				fail("client %d asked %q and its reply carries the question %q - another request's spelling of the name (shared lookup)", d.I, cl.Name, m.Question[0].Name)
 			}
 			// a healthy name with real budget left must be answered, whoever else was waiting on it
 			// (with a tight attempt capacity any client may itself be the one refused, which the property allows)
